@@ -309,6 +309,10 @@ def cases(ctx):
                 structured.append((n, byte << (8 * pos)))
         for p in range(n - 1):
             structured.append((n, 3 << p))
+        for p in range(n - 24):       # shifted copies of the generator: valid code words of weight 13, the register runs empty
+            structured.append((n, bits.GEN << p))
+            structured.append((n, (bits.GEN << p) ^ bits.GEN))
+            structured.append((n, (bits.GEN << p) ^ 1))
     for n, x in structured:
         if ctx.mine(i):
             yield "exact", {"n": n, "x": "%X" % x, "legacy": (i % 4 == 0), "case": "lower" if i % 3 == 0 else "upper"}
